@@ -638,7 +638,7 @@ theorem parseOffset_Z (e : Env) {v : Str} {i : Nat} (h : Sfx v i ['Z']) :
   simp [h.lt, hd]
 
 theorem parseOffset_signed (e : Env) {v : Str} {i hh mm : Nat} (c : Char) (hc : c = '-' ∨ c = '+')
-    (hhh : hh < 100) (hmm : mm < 100)
+    (hhh : hh < 100) (hmm : mm ≤ 59)
     (h : Sfx v i (c :: (zpad hh 2 ++ ':' :: (zpad mm 2 ++ [])))) :
     parseOffset e ⟨v, i⟩ =
       some (some (if c = '-' then ((hh : Int) * 60 + mm) * (-1) else ((hh : Int) * 60 + mm) * 1),
@@ -646,7 +646,8 @@ theorem parseOffset_signed (e : Env) {v : Str} {i hh mm : Nat} (c : Char) (hc : 
   have h1 := h.adv1
   have h2 := h1.adv_zpad2 hhh
   have h3 := h2.adv1
-  have h4 := h3.adv_zpad2 hmm
+  have hmm' : mm < 100 := by omega
+  have h4 := h3.adv_zpad2 hmm'
   have hd := h4.done
   have hZ : c ≠ 'Z' := by rcases hc with rfl | rfl <;> decide
   unfold parseOffset PS.hasMore PS.peek
@@ -654,7 +655,8 @@ theorem parseOffset_signed (e : Env) {v : Str} {i hh mm : Nat} (c : Char) (hc : 
   simp only [h.lt, decide_true, Bool.not_true, Bool.false_eq_true, if_false, hZ]
   have hcc : (decide (c = '-') || decide (c = '+')) = true := by
     rcases hc with rfl | rfl <;> decide
-  simp only [hcc, if_true, parseDigits_ok e hhh h1, skip_ok h2, parseDigits_ok e hmm h3]
+  have hle : ¬ ((mm : Int) > 59) := by omega
+  simp only [hcc, if_true, parseDigits_ok e hhh h1, skip_ok h2, parseDigits_ok e hmm' h3, hle, if_false]
   rw [← hd]
 
 /-- `parse_offset` inverts `format_offset` (for offsets below 100 hours) and
